@@ -263,11 +263,23 @@ pub struct Assertion {
     pub expr: Located<Expression>,
     pub snapshot: SymbolSnapshot,
     pub failure_message: Option<String>,
+    /// The segment the assertion is in (its address may exist in other segments, of other banks, as well)
+    pub segment: Option<Identifier>,
 }
 
 pub struct Trace {
     pub exprs: Vec<Located<Expression>>,
     pub snapshot: SymbolSnapshot,
+    pub segment: Option<Identifier>,
+}
+
+impl TestElement {
+    pub fn segment(&self) -> Option<&Identifier> {
+        match self {
+            TestElement::Assertion(a) => a.segment.as_ref(),
+            TestElement::Trace(t) => t.segment.as_ref(),
+        }
+    }
 }
 
 impl CodegenContext {
@@ -721,6 +733,7 @@ impl CodegenContext {
                         expr: value.clone(),
                         snapshot: extracted_evaluator,
                         failure_message: interpolated_failure_message,
+                        segment: self.current_segment.clone(),
                     }));
                 }
             }
@@ -1448,6 +1461,7 @@ impl CodegenContext {
                     self.test_elements.push(TestElement::Trace(Trace {
                         exprs,
                         snapshot: extracted_evaluator,
+                        segment: self.current_segment.clone(),
                     }));
                 }
             }
